@@ -26,7 +26,7 @@ func genC04(c *Ctx) {
 			// depth 2: second operator must accept the first one's element type; keep int-producing firsts
 			for _, u2 := range []string{"map add:1", "filter mod:2:1", "limit 2", "skip 1", "window 2 1 0", "cluster 2 first", "cluster 2 firstprev", "window 3 2 0"} {
 				first := u
-				if len(u) > 6 && (u[:6] == "window" || (len(u) > 17 && u[len(u)-9:] == "firstprev")) {
+				if len(u) > 6 && (u[:6] == "window" || (u[:7] == "cluster" && u[len(u)-5:] != "first" && u[len(u)-4:] != "none")) {
 					first = "map sum " + u
 				}
 				c.Case(in != "-", fmt.Sprintf("%s %s src 0 %s || collect all nofault", u2, first, in))
